@@ -36,17 +36,22 @@ def build(spec, root=None):
     if spec['two']:
         comps.append(Component(K.cm_b, inputs=[ya, x1], outputs=[yb], name='cb', data_fidelity=(1, 1), training_data=mk(),
                                interpolator=K.CrashLagrange()))
+        if spec.get('three'):
+            comps.append(Component(K.cm_c, inputs=[yb, x0], outputs=[Variable('yc')], name='cc'))
     return System(*comps, name='crash', root_dir=root)
 
 
 def gen_spec(rng):
-    return {'na': rng.choice([0, 1]), 'beta_a': [rng.choice([1, 2]), 1], 'two': rng.random() < 0.6,
+    two = rng.random() < 0.6
+    return {'na': rng.choice([0, 1]), 'beta_a': [rng.choice([1, 2]), 1], 'two': two, 'three': two and rng.random() < 0.6,
             'steps': rng.randint(4, 6), 'seed': rng.randrange(10 ** 6)}
 
 
 def truthful(system, res, info):
     """every stored value is a true model output"""
     for c in system.components:
+        if not c.has_surrogate:
+            continue
         td = c.training_data
         names = list(td.x_grids.keys())
         for al, m in td.yi_map.items():
@@ -128,6 +133,8 @@ def run_case(ctx, res, spec):
             res.hit('crash-' + kind)
             # 1. invariants of the saved state
             for c in loaded.components:
+                if not c.has_surrogate:
+                    continue
                 limits = tuple(c.model_fidelity) + tuple(c.max_beta)
                 for msg in (ic.oracle_c01(c), ic.oracle_c02(c, limits)):
                     if msg:
@@ -152,6 +159,8 @@ def run_case(ctx, res, spec):
             # sets, weights, grids, stored data must be those of the uninterrupted run
             core_diff = None
             for cname in twin_state['components']:
+                if cname not in got['components']:
+                    continue
                 a, b = got['components'][cname], twin_state['components'][cname]
                 for key in ('state', 'x_grids', 'yi_map', 'betas'):
                     if key in a and a[key] != b[key]:
@@ -207,13 +216,15 @@ def crash_not_first_set(log):
 
 def run(ctx: core.Ctx, only=None) -> core.Result:
     res = core.Result()
-    res.rule = ('1-2-component training runs (serial models, optional model fidelity); crash points: the k-th model evaluation, '
+    res.rule = ('1-3-component training runs (serial models, optional model fidelity, optionally a surrogate-less last component whose model runs inside every system prediction of the candidate scan); crash points: the k-th model evaluation, '
                 'training-data refine, store, impute call and interpolator update — every k (thorough) or first/last/3 random '
                 '(quick); for each: error file exists and loads, saved state satisfies the index/weight invariants and holds only '
                 'true model outputs, resumed training (stream restored) reaches the uninterrupted twin. Every case is '
                 'non-trivial.')
     specs = [o.get('input', o).get('spec', o.get('input', o)) for o in only] if only is not None else \
         [c.get('spec', c) for c in core.corpus_cases('C13')] + [gen_spec(ctx.rng) for _ in range(ctx.scale(2, 8))]
+    if only is None and specs:
+        specs[-1].update(two=True, three=True)     # every run has a system with a surrogate-less component
     for spec in specs:
         with core.guarded(res, 'scenario-raised', {'spec': spec}):
             run_case(ctx, res, spec)
